@@ -389,9 +389,10 @@ impl EnumSpec for RsSpec {
             }
         }
         let inp = Input::new(bits, case.sel);
-        let eps = match (self.def.make)(&inp, case.build) {
-            Ok(e) => e,
-            Err(_) => return Outcome::skip("construct_err"),
+        let eps = match catch(|| (self.def.make)(&inp, case.build)) {
+            Ok(Ok(e)) => e,
+            Ok(Err(_)) => return Outcome::skip("construct_err"),
+            Err(pf) => return fail("construct", "panic", pf.detail),
         };
         match eps.iter().find(|e| e.name == self.ep) {
             Some(ep) => check_ep(ep, &inp),
